@@ -463,8 +463,8 @@ func c10LinBody(rc *RunCtx) {
 	for i := 0; i < rt.NumMethod(); i++ {
 		n := rt.Method(i).Name
 		if c10PointOps[n] {
-			if n == "Get" && strings.HasPrefix(t.Name, "Request") {
-				continue // blocking dequeue: covered by C11; here only the non-blocking dequeue
+			if n == "Get" && strings.HasPrefix(t.Name, "Request") && !simrt.Chance(1, 2) {
+				continue // blocking dequeue only in half of the runs (a task parked in it ends its plan)
 			}
 			if _, ok := mkArgs(n, reflect.ValueOf(obj).MethodByName(n).Type(), 1, 1); ok {
 				points = append(points, n)
@@ -513,8 +513,14 @@ func c10LinBody(rc *RunCtx) {
 		})
 		tasks = append(tasks, tk)
 	}
+	// tasks may stay parked in a blocking dequeue: wait for quiescence, not for their end
+	simrt.Settle(int64(5 * time.Second))
 	for _, tk := range tasks {
-		simrt.Join(tk)
+		if !tk.Done() {
+			if _, what := tk.Blocked(); what != "cond" {
+				rc.Violate("C10", "blocks-forever", "blocked:"+d.Type, "a task of the concurrent mix did not finish: blocked on "+what)
+			}
+		}
 	}
 	_ = thresholdBefore
 	// sequential read-out at quiescence: structural corruption shows as an illegal history
